@@ -359,7 +359,8 @@ void run_program(World &w, int idx, const TaskProg &t)
     vsim::yield();
     if (op.kind == OP_ADDPROC)
     {
-      // TracerProvider::AddProcessor with spans in flight. Every span of the run was started
+      // TracerProvider::AddProcessor with spans in flight, from the only application task (the
+      // call is documented as not thread safe). Every span of the run was started
       // before, so nothing is demanded of the late processor's exporter (it may or may not see
       // those spans); the processors configured from the start must be unaffected.
       if (w.late < kLate && w.prov)
@@ -880,7 +881,9 @@ void generate(const std::string &, Rng &wl, Rng &fl, Case &c)
         p.ops.push_back({OP_SETATTR, s, (int64_t)wl.below(4), (int64_t)wl.below(val::kAlts),
                          (int64_t)(wl.next() >> 2)});
     }
-    if (wl.chance(0.08))
+    // (AddProcessor is documented as not thread safe: only in single-task programs, i.e. between
+    // the operations of the one application thread; batch workers may be exporting meanwhile)
+    if (ntasks == 1 && wl.chance(0.2))
     {
       p.ops.insert(p.ops.begin() + (long)wl.below(p.ops.size() + 1), {OP_ADDPROC, 0, 0, 0, 0});
       if (c.stratum.find(".addproc") == std::string::npos)
